@@ -2,8 +2,8 @@
    Proofs.IsoLazyProofs / IsoMatchProofs / IsoCompileProofs / IsoProofs.  Model: Model.Iso (hand-written, tied to
    chython/algorithms/isomorphism.py and chython/_functions.py by the correspondence of harness/checks/C07.py). *)
 From Coq Require Import ZArith List Bool Permutation.
-From Model Require Import PyBase Iso.
-From Proofs Require Import IsoLazyProofs IsoMatchProofs IsoCompileProofs IsoProofs.
+From Model Require Import PyBase Stereo Iso IsoStereo.
+From Proofs Require Import StereoProofs IsoLazyProofs IsoMatchProofs IsoCompileProofs IsoProofs IsoExt IsoAuto IsoStereoProofs.
 Import ListNotations.
 Open Scope Z_scope.
 
@@ -313,3 +313,169 @@ Theorem C07_is_equal_true_isomorphism_partial : forall (QA A QB B : Type) (amatc
        end).
 Proof. exact is_equal_true_isomorphism. Qed.
 Print Assumptions C07_is_equal_true_isomorphism_partial.
+
+(* ---------------------------------------------------------------------------------------------------------------
+   is_equal <-> isomorphic, both directions.  tcomps_connected: every list of other.connected_components is connected
+   (any two of its atoms are joined by a path of bonds) -- needed for the converse: tcomps_ok alone also admits a
+   partition that lumps two components together, for which a two-component pattern would find no embedding.
+   isomorphism f: f is a bijection between ALL atoms of pattern and target, atoms match, and for every two atoms
+   bond <-> matching bond, no bond <-> no bond.
+   --------------------------------------------------------------------------------------------------------------- *)
+Theorem C07_is_equal_iff_isomorphic : forall (QA A QB B : Type) (amatch : QA -> A -> bool) (bmatch : QB -> B -> bool)
+    (q_atoms : list (Z * QA)) (q_bonds : list (Z * list (Z * QB))) (o_atoms : list (Z * A)) (o_bonds : list (Z * list (Z * B)))
+    (tcomps : list (list Z)),
+  wf_adj q_atoms q_bonds -> wf_adj o_atoms o_bonds -> tcomps_ok A B o_atoms o_bonds tcomps ->
+  (forall cand y1 y2, In cand tcomps -> In y1 cand -> In y2 cand -> reach o_bonds y1 y2) ->
+  exists b, is_equal amatch bmatch q_atoms q_bonds o_atoms o_bonds tcomps = Ok b /\
+    (b = true <->
+     exists f : mapping,
+       Permutation (map fst f) (keys q_atoms) /\ Permutation (image f) (keys o_atoms) /\
+       (forall x y, In (x, y) f -> exists qa oa, zget q_atoms x = Some qa /\ zget o_atoms y = Some oa /\ amatch qa oa = true) /\
+       (forall x1 y1 x2 y2, In (x1, y1) f -> In (x2, y2) f ->
+          match bond_get q_bonds x1 x2, bond_get o_bonds y1 y2 with
+          | Some qb, Some ob => bmatch qb ob = true
+          | None, None => True
+          | _, _ => False
+          end)).
+Proof. exact is_equal_iff_isomorphic. Qed.
+Print Assumptions C07_is_equal_iff_isomorphic.
+
+(* non-vacuity of the hypotheses (incl. connectedness): C-C-O . O, renumbered, is_equal to CCO.O, with the isomorphism *)
+Theorem C07_example_is_equal :
+  wf_adj ex2_q_atoms ex2_q_bonds /\ wf_adj ex_o_atoms ex_o_bonds /\ tcomps_ok Z Z ex_o_atoms ex_o_bonds ex_tcomps /\
+  tcomps_connected Z ex_o_bonds ex_tcomps /\
+  is_equal Z.eqb Z.eqb ex2_q_atoms ex2_q_bonds ex_o_atoms ex_o_bonds ex_tcomps = Ok true /\
+  isomorphism Z Z Z Z Z.eqb Z.eqb ex2_q_atoms ex2_q_bonds ex_o_atoms ex_o_bonds [(9, 4); (7, 1); (5, 2); (6, 3)].
+Proof. exact example_is_equal. Qed.
+Print Assumptions C07_example_is_equal.
+
+(* ---------------------------------------------------------------------------------------------------------------
+   _get_automorphism_mapping(atoms = {atom: class}, bonds)   (mol.get_automorphism_mapping() passes _chiral_morgan).
+   class_automorphism comps f (Proofs.IsoAuto): f lists all atoms (component after component), is injective, sends every atom
+   to an atom of ITS OWN component and of its own class, and for every two atoms bond <-> equal bond, no bond <-> no bond.
+   --------------------------------------------------------------------------------------------------------------- *)
+Theorem C07_automorphism_mapping_exact : forall (B : Type) (beq : B -> B -> bool) (atoms : list (Z * Z)) (bonds : list (Z * list (Z * B))),
+  wf_adj atoms bonds ->
+  exists comps clo res, compile_query atoms bonds = Ok (comps, clo) /\
+    get_automorphism_mapping beq atoms bonds = Ok res /\ NoDup res /\
+    forall f, In f res <->
+      (map fst f = concat (map (map fst4) comps) /\ NoDup (image f) /\
+       (forall x y, In (x, y) f -> (exists c, In c comps /\ In x (map fst4 c) /\ In y (map fst4 c)) /\
+                                   exists cl, zget atoms x = Some cl /\ zget atoms y = Some cl) /\
+       (forall x1 y1 x2 y2, In (x1, y1) f -> In (x2, y2) f ->
+          match bond_get bonds x1 x2, bond_get bonds y1 y2 with
+          | Some qb, Some ob => beq qb ob = true
+          | None, None => True
+          | _, _ => False
+          end)) /\
+      exists x y, In (x, y) f /\ x <> y.
+Proof. exact automorphism_mapping_exact. Qed.
+Print Assumptions C07_automorphism_mapping_exact.
+
+(* a connected graph: exactly ALL non-identity automorphisms (bijections of the atoms keeping classes and bonds), each once *)
+Theorem C07_automorphism_mapping_connected_exact : forall (B : Type) (beq : B -> B -> bool) (atoms : list (Z * Z))
+    (bonds : list (Z * list (Z * B))) (c : list (lentry Z B)) clo,
+  wf_adj atoms bonds -> compile_query atoms bonds = Ok ([c], clo) ->
+  exists res, get_automorphism_mapping beq atoms bonds = Ok res /\ NoDup res /\
+    forall f, In f res <-> map fst f = map fst4 c /\ isomorphism Z Z B B Z.eqb beq atoms bonds atoms bonds f /\ exists x y, In (x, y) f /\ x <> y.
+Proof. exact automorphism_mapping_connected_exact. Qed.
+Print Assumptions C07_automorphism_mapping_connected_exact.
+
+(* "all automorphisms" is FALSE with several components: an automorphism exchanging two identical components is never produced
+   (C.C: nothing is yielded, is_automorphic() is False).  Replayed on the real code by the search (finding automorphism-component-swap). *)
+Theorem C07_automorphism_mapping_all_refuted :
+  exists (atoms : list (Z * Z)) (bonds : list (Z * list (Z * Z))) (f : mapping),
+    wf_adj atoms bonds /\
+    isomorphism Z Z Z Z Z.eqb Z.eqb atoms bonds atoms bonds f /\ (exists x y, In (x, y) f /\ x <> y) /\
+    get_automorphism_mapping Z.eqb atoms bonds = Ok [].
+Proof. exact automorphism_mapping_all_refuted. Qed.
+Print Assumptions C07_automorphism_mapping_all_refuted.
+
+Theorem C07_example_automorphism :
+  wf_adj [(1, 7); (2, 7)] [(1, [(2, 1)]); (2, [(1, 1)])] /\
+  compile_query [(1, 7); (2, 7)] [(1, [(2, 1)]); (2, [(1, 1)])] = Ok ([[(1, None, 7, None); (2, Some 1, 7, Some 1)]], []) /\
+  get_automorphism_mapping Z.eqb [(1, 7); (2, 7)] [(1, [(2, 1)]); (2, [(1, 1)])] = Ok [[(1, 2); (2, 1)]].
+Proof. exact example_automorphism. Qed.
+Print Assumptions C07_example_automorphism.
+
+(* ---------------------------------------------------------------------------------------------------------------
+   The stereo post-filter of QueryIsomorphism.get_mapping (model: Model.IsoStereo; sign translation: C12's Model.Stereo).
+   qstereo_filter t q ms = (what the generator yields, the exception that ended it if any), ms = what Isomorphism._get_mapping
+   yields; t / q = the observed stereo registries of the target / the stereo labels and neighbour orders of the query.
+   --------------------------------------------------------------------------------------------------------------- *)
+(* it is a filter: up to the first exception exactly the accepted mappings, in the order of the underlying search *)
+Theorem C07_qstereo_filter_spec : forall t q ms,
+  exists pre post, ms = pre ++ post /\
+    fst (qstereo_filter t q ms) = filter (accepted t q) pre /\
+    (forall mp, In mp pre -> exists b, qstereo_ok t q mp = Ok b) /\
+    match snd (qstereo_filter t q ms) with
+    | None => post = []
+    | Some e => exists mp r, post = mp :: r /\ qstereo_ok t q mp = Err e
+    end.
+Proof. exact qstereo_filter_spec. Qed.
+Print Assumptions C07_qstereo_filter_spec.
+
+(* a query without stereo labels: nothing is removed, so every theorem about Isomorphism._get_mapping above is a theorem
+   about QueryIsomorphism.get_mapping(_cython=False) *)
+Theorem C07_qstereo_free_identity : forall t q ms,
+  (forall n s, In (n, s) (sq_atoms q) -> s = None) -> (forall n m s, In (n, m, s) (sq_bonds q) -> s = None) ->
+  qstereo_filter t q ms = (ms, None).
+Proof. exact qstereo_free_identity. Qed.
+Print Assumptions C07_qstereo_free_identity.
+
+(* the tetrahedral clause is a parity condition: the query atom's neighbours (in the query's order) go to the arrangement p of
+   the target's registered neighbour order (all four, or the first three of it): accepted iff query label = target label xor
+   parity of p *)
+Theorem C07_atom_check_parity4 : forall t q mp n qs m ts a b c d nbs p,
+  zget mp n = Some m -> zget (st_atom_stereo t) m = Some (Some ts) ->
+  zget (st_th t) m = Some [a; b; c; d] -> NoDup [a; b; c; d] ->
+  zget (sq_adj q) n = Some nbs -> In p perms4 ->
+  (map_images mp nbs = Ok (sel [a; b; c; d] p) \/ map_images mp nbs = Ok (firstn 3 (sel [a; b; c; d] p))) ->
+  atom_check t q mp n qs = Ok (Bool.eqb (xorb ts (odd_perm p)) qs).
+Proof. exact atom_check_parity4. Qed.
+Print Assumptions C07_atom_check_parity4.
+
+(* target centre with an implicit hydrogen (three registered neighbours): the hydrogen counts as the fourth position *)
+Theorem C07_atom_check_parity3 : forall t q mp n qs m ts a b c nbs p,
+  zget mp n = Some m -> zget (st_atom_stereo t) m = Some (Some ts) ->
+  zget (st_th t) m = Some [a; b; c] -> NoDup [a; b; c] ->
+  zget (sq_adj q) n = Some nbs -> In p perms3 -> map_images mp nbs = Ok (sel [a; b; c] p) ->
+  atom_check t q mp n qs = Ok (Bool.eqb (xorb ts (odd_perm (p ++ [3]))) qs).
+Proof. exact atom_check_parity3. Qed.
+Print Assumptions C07_atom_check_parity3.
+
+(* mirror image: inverting the label of the target centre (tetrahedral or allene-type) inverts the verdict; same exceptions *)
+Theorem C07_atom_check_mirror : forall t q mp n qs m ts,
+  zget mp n = Some m -> zget (st_atom_stereo t) m = Some (Some ts) ->
+  atom_check (with_atom_label t m (negb ts)) q mp n qs =
+  match atom_check t q mp n qs with Ok v => Ok (negb v) | Err e => Err e end.
+Proof. exact atom_check_mirror. Qed.
+Print Assumptions C07_atom_check_mirror.
+
+(* an unlabelled target atom / bond never matches a labelled query atom / bond *)
+Theorem C07_unlabelled_rejected : forall t q mp,
+  (forall n qs m, zget mp n = Some m -> zget (st_atom_stereo t) m = Some None -> atom_check t q mp n qs = Ok false) /\
+  (forall n m qs on om, zget mp n = Some on -> zget mp m = Some om -> zget (adj_get (st_bond_stereo t) on) om = Some None ->
+                        bond_check t q mp n m qs = Ok false).
+Proof. exact unlabelled_rejected. Qed.
+Print Assumptions C07_unlabelled_rejected.
+
+(* REFUTED: "with the automorphism filter one mapping per set of image atoms remains" for stereo queries.  The filter on image
+   sets runs inside Isomorphism._get_mapping, BEFORE the stereo check: query [C@]([#6])([#6])(F)Cl on C[C@](CC)(F)Cl has two
+   mappings onto the same atoms, only the second passes the stereo check, the first one has already consumed the image set:
+   nothing is returned (finding stereo-after-automorphism-filter, replayed on the real code by the search) *)
+Theorem C07_filter_order_refuted :
+  qstereo_filter ex_st ex_sq ex_stream = ([[(1, 2); (2, 1); (3, 3); (4, 5); (5, 6)]], None) /\
+  qstereo_filter ex_st ex_sq (auto_filter true [] ex_stream) = ([], None) /\
+  auto_filter true [] (fst (qstereo_filter ex_st ex_sq ex_stream)) = [[(1, 2); (2, 1); (3, 3); (4, 5); (5, 6)]].
+Proof. exact filter_order_refuted. Qed.
+Print Assumptions C07_filter_order_refuted.
+
+Theorem C07_example_parity_instance :
+  let mp := [(1, 2); (2, 1); (3, 3); (4, 5); (5, 6)] in
+  zget mp 1 = Some 2 /\ zget (st_atom_stereo ex_st) 2 = Some (Some true) /\ zget (st_th ex_st) 2 = Some [1; 3; 5; 6] /\ NoDup [1; 3; 5; 6] /\
+  zget (sq_adj ex_sq) 1 = Some [2; 3; 4; 5] /\ In [0; 1; 2; 3] perms4 /\ map_images mp [2; 3; 4; 5] = Ok (sel [1; 3; 5; 6] [0; 1; 2; 3]) /\
+  atom_check ex_st ex_sq mp 1 true = Ok true /\
+  atom_check (with_atom_label ex_st 2 false) ex_sq mp 1 true = Ok false.
+Proof. exact example_parity_instance. Qed.
+Print Assumptions C07_example_parity_instance.
